@@ -463,6 +463,18 @@ def _cross_objects(cls, vi, seed):
             out.append(("warm.R%d" % R, lambda R=R: _warm(meas(cls, R))))
             if "PDF" not in cls:
                 out.append(("light.R%d" % R, lambda R=R: (lambda o: (o.log_integral_light(), o)[1])(meas(cls, R))))
+                out.append(("normalized.R%d" % R, lambda R=R: _normalize(meas(cls, R))))
+            else:
+                # densities reached from elsewhere: updated in place / sliced with negative indices
+                def upd(R=R):
+                    o = meas(cls, R)
+                    o.integrate("xx'")
+                    diag = "Diag" in cls
+                    d = objs.mk_pdf(cls, objs.spd_batch(D, 1, vi + 2, seed, ("x18u", cls), diag=diag), objs.vec_batch(D, 1, vi + 2, seed, ("x18u", cls)))
+                    o.update(jnp.array([R - 1]), d)
+                    return o
+                out.append(("updated.R%d" % R, upd))
+                out.append(("sliced_neg.R%d" % R, lambda R=R: meas(cls, R + 1).slice(jnp.array(list(range(-R, 0))))))
     elif cls in ("ConjugateFactor", "OneRankFactor", "LinearFactor", "ConstantFactor"):
         for R in (1, 2):
             out.append(("R%d" % R, lambda R=R: objs.mk_factor(cls, D, R, vi, seed, tag=("x18f",))[0]))
@@ -492,6 +504,12 @@ def observe(o):
             return dict(value=np.asarray(o.condition_on_x_u(x, u).evaluate_ln(y)))
         return dict(value=np.asarray(o.condition_on_x(x).evaluate_ln(y)), Sigma=np.asarray(o.Sigma), Lambda=np.asarray(o.Lambda), ln_det_Sigma=np.asarray(o.ln_det_Sigma))
     out = dict(value=np.asarray(o.evaluate_ln(x)))
+    if hasattr(o, "log_integral"):
+        # mass and first / second moments are part of "the same function"
+        import copy as _copy
+
+        q = _copy.copy(o)
+        out["value"] = np.concatenate([out["value"].ravel(), np.asarray(q.log_integral()).ravel(), np.asarray(q.integrate("x")).ravel(), np.asarray(q.integrate("xx'")).ravel()])
     for a in ("Sigma", "ln_det_Sigma", "ln_det_Lambda", "mu", "lnZ"):
         v = getattr(o, a, None)
         if v is not None:
@@ -555,7 +573,7 @@ def run_crossing(shard, ctx):
                         else:
                             got = np.asarray(jax.jit(lambda o, xx, yy: o.condition_on_x(xx).evaluate_ln(yy))(mk(), x, J(al.points(2, D, salt=4))))
                     else:
-                        got = np.asarray(jax.jit(lambda o, xx: o.evaluate_ln(xx))(mk(), x))
+                        got = np.asarray(jax.jit(lambda o, xx: jnp.concatenate([o.evaluate_ln(xx).ravel(), o.log_integral().ravel(), o.integrate("x").ravel(), o.integrate("xx'").ravel()]) if hasattr(o, "log_integral") else o.evaluate_ln(xx))(mk(), x))
                 if g.ok:
                     ctx.count("traces_validated_against_impl")
                     ctx.close("crossing.value", got, ref, facts=facts, symptom="function_changed")
